@@ -195,12 +195,8 @@ func compact(evs []Event) string {
 //	F-C18-1 zngio.Writer.flush returns nil when writeBlock fails        -> L1
 //	F-C18-2 csvio.Writer.Close ignores the csv.Writer's deferred error  -> L3
 //	F-C18-3/4 tableio.Writer.Write ignores flush/header write errors    -> L1
-var defectsOf = map[string][]string{
-	"zng/direct":   {"L1"},
-	"csv/direct":   {"L3"},
-	"tsv/direct":   {"L3"},
-	"table/direct": {"L1"},
-}
+// (all four were repaired by fix: commits 9616228f1, 2798b3726, d01e07394; the table is empty now)
+var defectsOf = map[string][]string{}
 
 type witness struct {
 	Target string   `json:"target"`
